@@ -356,7 +356,7 @@ func runDot(c *vrt.Ctx) {
 		r := c.RNG("dot/rt", i)
 		c.LastCase(fmt.Sprintf("dot roundtrip case %d", i))
 		directed, multi := i&1 == 0, i&2 != 0
-		shape := []string{"plain", "plain", "plain", "structure", "structure-same-name", "subgrapher-one-edge", "subgrapher-many-edges", "subgrapher-isolated"}[(i>>2)%8]
+		shape := []string{"plain", "plain", "subgrapher-nested", "structure", "structure-same-name", "subgrapher-one-edge", "subgrapher-many-edges", "subgrapher-isolated"}[(i>>2)%8]
 		b := newDotGraph(directed, multi)
 		m := &chk.Model{Directed: directed, Multi: multi, Nodes: map[string][]chk.Attr{}}
 		pool := &idPool{used: map[string]bool{}}
@@ -446,6 +446,90 @@ func runDot(c *vrt.Ctx) {
 					m.Edges = append(m.Edges, orientEdge(me, directed))
 				}
 			}
+		case "subgrapher-nested":
+			// A Subgrapher node S (sub-graph H) with an edge to a plain node;
+			// H holds plain nodes and a Subgrapher node T (sub-graph K) with an
+			// edge to one of them; K may hold a third level. The text means:
+			// every node of K to that node, and every node of H - those of K
+			// and below included - to the end point of S's edge.
+			nodes := populate(r, b, m, pool, 3, true)
+			for len(nodes) < 1 {
+				nd := &chk.DNode{NID: b.newNodeID(), Name: pool.next(r)}
+				b.addNode(nd)
+				nodes = append(nodes, nd)
+				m.Nodes[chk.UnquoteDOT(nd.Name)] = nil
+				m.NodeOrder = append(m.NodeOrder, chk.UnquoteDOT(nd.Name))
+			}
+			addPlain := func(g dotBuilder, n int) []*chk.DNode {
+				var out []*chk.DNode
+				for k := 0; k < n; k++ {
+					nd := &chk.DNode{NID: g.newNodeID(), Name: pool.next(r)}
+					g.addNode(nd)
+					out = append(out, nd)
+					m.Nodes[chk.UnquoteDOT(nd.Name)] = nil
+					m.NodeOrder = append(m.NodeOrder, chk.UnquoteDOT(nd.Name))
+				}
+				return out
+			}
+			subNode := func(parent, sub dotBuilder) graph.Node {
+				var sn graph.Node
+				if multi {
+					sn = &chk.MSubNode{NID: parent.newNodeID(), G: sub.g.(gdot.Multigraph)}
+				} else {
+					sn = &chk.SubNode{NID: parent.newNodeID(), G: sub.g.(gdot.Graph)}
+				}
+				parent.addNode(sn)
+				return sn
+			}
+			expect := func(from, to []*chk.DNode, out bool) {
+				for _, f := range from {
+					for _, t := range to {
+						me := chk.MEdge{From: chk.UnquoteDOT(f.Name), To: chk.UnquoteDOT(t.Name)}
+						if !out {
+							me.From, me.To = me.To, me.From
+						}
+						m.Edges = append(m.Edges, orientEdge(me, directed))
+					}
+				}
+			}
+			link := func(g dotBuilder, sn graph.Node, other graph.Node, out bool) {
+				if out {
+					g.addEdge(sn, other, nil, chk.Ports{})
+				} else {
+					g.addEdge(other, sn, nil, chk.Ports{})
+				}
+			}
+			hb := newDotGraph(directed, multi)
+			hb.setName(pool.next(r))
+			hPlain := addPlain(hb, 1+r.Intn(2))
+			kb := newDotGraph(directed, multi)
+			kb.setName(pool.next(r))
+			kPlain := addPlain(kb, 1+r.Intn(2))
+			all := append(append([]*chk.DNode(nil), hPlain...), kPlain...)
+			third := r.Bool()
+			if third { // a third level below K
+				lb := newDotGraph(directed, multi)
+				lb.setName(pool.next(r))
+				lPlain := addPlain(lb, 1+r.Intn(2))
+				out := r.Bool()
+				link(kb, subNode(kb, lb), kPlain[0], out)
+				expect(lPlain, kPlain[:1], out)
+				kPlain = append(kPlain, lPlain...) // K stands for its own nodes and those below
+				all = append(all, lPlain...)
+			}
+			outK := r.Bool()
+			link(hb, subNode(hb, kb), hPlain[0], outK)
+			expect(kPlain, hPlain[:1], outK)
+			outS := r.Bool()
+			link(b, subNode(b, hb), nodes[0], outS)
+			expect(all, nodes[:1], outS)
+			if directed && (!outS || third && !outK) {
+				// A Subgrapher node with incoming edges only is written twice by
+				// Marshal (among the nodes and in the edge statement); the second
+				// copy omits the edges already written and with them the nested
+				// sub-graph that is their end point (reported defect): own class.
+				shape = "subgrapher-nested-reprinted"
+			}
 		default:
 			populate(r, b, m, pool, 7, true)
 		}
@@ -496,6 +580,27 @@ func runDot(c *vrt.Ctx) {
 		report(c, t, "dot.Unmarshal", enc, 0, chk.DotUnmarshal(enc))
 		if c.WantSample() && i == 3 {
 			c.Sample(map[string]any{"codec": "dot", "shape": shape, "kind": kind, "text": clipS(string(enc), 400)})
+		}
+	})
+	// DOT texts with subgraphs as edge end points nested to depth 1..3, in
+	// chains, over existing and new nodes, mixed with plain nested subgraph
+	// statements: the decoded graph against the independent interpretation of
+	// the text (every node of the whole left vertex to every node of the
+	// right one).
+	nt := pick(c, 3000, 40000)
+	vrt.Parallel(nt, func(i int) {
+		t := newTally()
+		defer total.merge(t)
+		r := c.RNG("dot/nested", i)
+		c.LastCase(fmt.Sprintf("dot nested text %d", i))
+		o := chk.NestedDotOptions{MaxDepth: 1 + i%3, Pool: []int{3, 6, 10, 16}[(i/3)%4], NoSelf: i%4 != 3}
+		txt := []byte(chk.GenNestedDot(r, o))
+		res := chk.DotUnmarshal(txt)
+		res.Class += fmt.Sprintf("|nested-depth%d", o.MaxDepth)
+		report(c, t, "dot.Unmarshal", txt, 0, res)
+		report(c, t, "dot.Parse", txt, 0, chk.Dot(txt))
+		if c.WantSample() && i == 8 {
+			c.Sample(map[string]any{"codec": "dot", "shape": "nested subgraph end points", "text": clipS(string(txt), 400)})
 		}
 	})
 	total.flush(c)
